@@ -7,6 +7,9 @@
 //	c04 -mode print [-seed N] [-n K] [-stride K] [-scen I] [-site S]
 //	   fragment scenarios with hostile values in every guarded field, through the real pipeline: JSON lines for the
 //	   Lean driver mode `print` (see harness/c04/print.go)
+//	c04 -mode pairs [-seed N] [-n perGroup] [-workers K] [-only substr]
+//	   the same hostile value in two leaves guarded by different validators of one family, one and two batches, every
+//	   scenario run twice in one process (see harness/c04/pairs.go): F/B/P/M lines for the judge, D lines (divergence), S
 //	c04 -mode leaves      list the enumerated leaves
 //	c04 -mode probe -base http -only <leaf path substring> -value <string>   show what one value does (replay aid)
 package main
@@ -51,6 +54,8 @@ func main() {
 		}
 	case "regex":
 		c04.Validators(w, *seed, *n)
+	case "pairs":
+		c04.Pairs(w, *seed, *n, *workers, *only)
 	case "print":
 		c04.Print(w, *seed, *n, *stride, *scen, *siteName)
 	case "probe":
